@@ -10,6 +10,7 @@
   c04.unary   ufunc method n <unit> x           the unary value path
   c04.dot     <unit0> <unit1>                   `unyt_array.dot`
   c04.pow     <unit> p                          `unyt_array.__pow__`
+  c04.outfix  <old unit of out> mul             the `multiply(out, mul, out=out)` fix-up: terminates or recurses
   c04.prog    n  <unit x>*n  tok…               a whole expression program (postfix: L<i>, B:<ufunc>,
                                                 U:<ufunc>, P:<p/q>) through `Prog.evalModel`
 -/
@@ -175,6 +176,14 @@ def stepC04 (st : DriverState) (fields : List String) : Option (DriverState × S
     | some u, some q =>
       match powDunder UnitV.eqFloat pre t u q with
       | .ok o => some (st, outLine o "-")
+      | .error e => some (st, s!"err\t{e.str}")
+    | _, _ => some (st, "bad-op")
+  | ["c04.outfix", s0, o0, d0, c0, f0, m] =>
+    match parseUnitV s0 o0 d0 c0 f0, fb m with
+    | some u, some m =>
+      match outFixup pre t u m with
+      | .ok (some f) => some (st, s!"ok\tfixed\t{bitsStr f}")
+      | .ok none => some (st, "ok\trecursion")
       | .error e => some (st, s!"err\t{e.str}")
     | _, _ => some (st, "bad-op")
   | "c04.prog" :: n :: rest =>
